@@ -264,7 +264,7 @@ class Num:
         return self
 
     def __truediv__(self, o):
-        if isinstance(o, (Cx, complex)):
+        if isinstance(o, (Cx, complex)) or hasattr(o, "axes"):
             return NotImplemented
         o = num(o)
         if o.concrete and o.t == 0:
@@ -283,6 +283,8 @@ class Num:
         return num(o).__truediv__(self)
 
     def _intdiv(self, o, mod, rev=False):
+        if hasattr(o, "axes"):
+            return NotImplemented
         o = num(o)
         a, b = (o, self) if rev else (self, o)
         if a.concrete and b.concrete and a.is_int and b.is_int:
@@ -307,7 +309,7 @@ class Num:
         return self._intdiv(o, True, True)
 
     def __pow__(self, e):
-        if isinstance(e, (Cx, complex)):
+        if isinstance(e, (Cx, complex)) or hasattr(e, "axes"):
             return NotImplemented
         e = num(e)
         if e.concrete and e.is_int:
